@@ -138,3 +138,40 @@ def plantable(strs, alphabet, max_len):
                 out.append(run)
             run = ''
     return out
+
+
+def source_thresholds(files, repo=None):
+    """the ints of the source that act as SIZES / BOUNDS rather than data: operands of comparisons, slice bounds, range() arguments,
+    right operands of % // & >> <<, and NAME = <int expression> assignments (CHUNK = 1 << 20).  Table entries (elements of list /
+    tuple / dict literals) are not included.  Sorted list of distinct values."""
+    out = set()
+
+    def take(node):
+        v = _fold_int(node)
+        if v is not None and abs(v) < 1 << 80:
+            out.add(v)
+
+    for f in files:
+        path = f if os.path.isabs(f) else os.path.join(repo or REPO, f)
+        try:
+            tree = ast.parse(open(path, encoding='utf-8').read())
+        except Exception:
+            continue
+        for node in ast.walk(tree):
+            if isinstance(node, ast.Compare):
+                for x in [node.left] + list(node.comparators):
+                    take(x)
+            elif isinstance(node, ast.Slice):
+                for x in (node.lower, node.upper, node.step):
+                    if x is not None:
+                        take(x)
+            elif isinstance(node, ast.Call) and isinstance(node.func, ast.Name) and node.func.id == 'range':
+                for x in node.args:
+                    take(x)
+            elif isinstance(node, ast.BinOp) and isinstance(node.op, (ast.Mod, ast.FloorDiv, ast.BitAnd, ast.RShift, ast.LShift)):
+                take(node.right)
+            elif isinstance(node, ast.Assign) and isinstance(node.value, (ast.Constant, ast.BinOp, ast.UnaryOp)):
+                take(node.value)
+            elif isinstance(node, ast.AnnAssign) and node.value is not None and isinstance(node.value, (ast.Constant, ast.BinOp, ast.UnaryOp)):
+                take(node.value)
+    return sorted(out)
